@@ -1,11 +1,35 @@
+import sys
+from pathlib import Path
 LIBS = ["libavoid"]
 HARNESS = "harness/c16.cpp"
 DRIVER_MODE = "c16"
 LEAN_MODULES = ["AdaptaVerif.Props.C16"]
 LEVEL = "proof"
-RULE = "exhaustive integer grid chunks + random integer tuples up to 2^20; a chunk is non-trivial if some segmentIntersect call is true / some orientation non-zero"
-TRUSTED_BASE = ["Lean 4.33 kernel", "axioms: propext, Classical.choice, Quot.sound", "harness + hex-float import", "IEEE exactness on small integers"]
+LEVEL_TEXT = ("Machine-checked Lean 4 theorems, for all rational inputs, that each geometry predicate equals its geometric "
+              "meaning (orientation sign, proper crossing, open-segment membership, half-plane intersection, intersection point on "
+              "both segments), its symmetries, and that on integers bounded by 2^20 all intermediates are integers below 2^53. The "
+              "kernels the theorems are about are regenerated from /repo's C++ by cpp2lean on every run and proved equal to the "
+              "hand model (bridge lemmas), and the C++ is executed against them exhaustively on the integer grid.")
+LEVEL_NOTE = ("Trusted: Lean kernel (+leanchecker in thorough); axioms propext/Classical.choice/Quot.sound; cpp2lean + clang AST "
+              "(validated each run by exhaustive C++-vs-generated-kernel agreement); IEEE-754 exactness of +,-,* on representable "
+              "results (division compared to 1e-9). inPoly, inPolyGen and segmentShapeIntersect (loops / reference parameter) are "
+              "hand-modelled, tied by exhaustive correspondence only; inPolyGen has no geometric-meaning theorem (crossing-number "
+              "argument not formalised).")
+TECHNIQUE = "Lean 4 proof about kernels regenerated from the C++ (cpp2lean) + exhaustive grid correspondence"
+DESIGN_REF = "DESIGN.md section 6 C16, section 4.1"
+RULE = ("cases = chunks: all 3-/4-tuples of the integer grid (side 4 quick, 5 thorough) with fixed first point; all triangles "
+        "(thorough: + all quadrilaterals) on the 4x4 grid with every grid point queried; random integer tuples/polygons up to 2^20 "
+        "(collinear, touching, shared-endpoint, parallel, on-segment classes). A chunk is non-trivial if some "
+        "segmentIntersect / inPoly answer in it is true; every chunk is a distinct input set by construction.")
+TRUSTED_BASE = ["Lean 4.33 kernel", "axioms: propext, Classical.choice, Quot.sound", "tools/cpp2lean + clang-14 AST",
+                "harness/c16.cpp + hex-float import", "IEEE-754: +,-,* exact when the result is representable"]
+ASSUMPTIONS = ["coordinates are integers (or dyadic) small enough that products are exactly representable, as the property states"]
 EXHAUSTIVE = {"quick": True, "thorough": True}
+
+def regenerate(ROOT, REPO):
+    sys.path.insert(0, str(Path(ROOT) / "tools" / "cpp2lean"))
+    import jobs
+    return jobs.regenerate(["geometry"], Path(ROOT), Path(REPO))
 
 def plan(tier, seed, searching):
     return [dict(hargs=["--seed", str(seed), "--tier", tier, "--scale", "8" if searching else "1"])]
